@@ -501,6 +501,10 @@ class AstToDjangoQVisitor(visitor.NodeVisitor):
         if isinstance(node, (Q, Exists)):
             return node
 
+        if isinstance(node, F):
+            # A bare (boolean) field is a shorthand for `field eq true`:
+            node = lookups.Exact(node, Value(True))
+
         if not DJANGO_LT_4:
             return Q(node)
 
